@@ -10,13 +10,14 @@ import (
 	"strings"
 
 	"github.com/dadrus/heimdall/internal/heimdall"
+	"github.com/dadrus/heimdall/internal/rules/mechanisms/cellib"
 	"github.com/dadrus/heimdall/internal/x/errorchain"
 )
 
 // BuildError constructs a concrete Go error value from an error expression:
 //
 //	E    := kind | chain(E,E,...) | wrap(E) | join(E,...) | msg(E) | redir(code)
-//	kind := authn|authz|comm|timeout|arg|norule|internal|config|eof|deadline|canceled|urlerr|foreign
+//	kind := authn|authz|comm|timeout|arg|norule|internal|config|eof|deadline|canceled|urlerr|foreign|evalerr
 //
 // chain(a,b,c) = errorchain.New(a).CausedBy(b).CausedBy(c); wrap = fmt.Errorf("%w");
 // join = errors.Join; msg = errorchain.NewWithMessage; redir = *heimdall.RedirectError.
@@ -117,6 +118,8 @@ func (p *parser) parse() (error, error) {
 		return &url.Error{Op: "Get", URL: "http://x.invalid", Err: errForeign}, nil
 	case "foreign":
 		return errForeign, nil
+	case "evalerr":
+		return &cellib.EvalError{}, nil
 	case "redir":
 		if p.pos >= len(p.s) || p.s[p.pos] != '(' {
 			return nil, fmt.Errorf("redir needs (code)")
